@@ -80,6 +80,12 @@ theorem cancel_final (w : Wheel) (c : Nat) (huniq : w.heap.Pairwise (fun a b => 
 theorem cancel_frame (w : Wheel) (c : Nat) (x : Entry) (hx : x ∈ w.heap) (hc : x.counter ≠ c) :
     x ∈ (cancel w c).heap := Verif.Inv.Wheel.cancel_keeps_others w c x hx hc
 
+/-- … each as often as before: with distinct counters the wheel after `cancel c` is, as a multiset, the wheel
+    without the entries of arming `c` — cancel neither duplicates nor drops another timer's arming -/
+theorem cancel_exact (w : Wheel) (c : Nat) (huniq : w.heap.Pairwise (fun a b => a.counter ≠ b.counter)) :
+    (cancel w c).heap.Perm (w.heap.filter (fun x => decide (x.counter ≠ c))) :=
+  Verif.Inv.Wheel.cancel_perm w c huniq
+
 theorem counters_fresh (w : Wheel) (d : Int) (t : Verif.Token.Tok) :
     (insert w d t).2 = w.counter ∧ (insert w d t).1.counter = w.counter + 1 := ⟨rfl, rfl⟩
 
@@ -106,6 +112,13 @@ theorem poll_fires_once_in_every_reachable_state (ops : List Op) (hab : (run ops
     (popExpired (run ops).wheel now fuel).1.Pairwise (fun a b => a.counter ≠ b.counter) ∧
     ∀ e ∈ (popExpired (run ops).wheel now fuel).1, ∀ x ∈ (popExpired (run ops).wheel now fuel).2.heap, e.counter ≠ x.counter :=
   poll_fires_each_arming_once _ now fuel (wheel_counters_distinct ops hab hre)
+
+open Verif.Loop in
+/-- … and a cancellation in any reachable state leaves exactly the other armings -/
+theorem cancel_exact_in_every_reachable_state (ops : List Op) (hab : (run ops).aborted = false)
+    (hre : (run ops).reEnabled = false) (c : Nat) :
+    (cancel (run ops).wheel c).heap.Perm ((run ops).wheel.heap.filter (fun x => decide (x.counter ≠ c))) :=
+  cancel_exact _ c (wheel_counters_distinct ops hab hre)
 
 open Verif.Loop in
 /-- … so in every reachable state a cancellation is final (the hypothesis of `cancel_final` holds) … -/
